@@ -1,9 +1,10 @@
 SPECIFICATION Spec
 CONSTANTS
   Ids <- mcIdsK
-  MaxEntries = 3
+  MaxEntries = 2
   BodyOf1 <- mcBody
   LiveSets <- mcLive
+  ExcludeKnown = FALSE
   EmitCases = FALSE
 INVARIANTS P_C07 P_C09 P_C10
 CHECK_DEADLOCK FALSE
